@@ -23,8 +23,12 @@
                                already carries a witness; nothing more is reported
                                about this variable until it is reassigned)
 
-   Statements (field k): asg v t | cpy v s | use v | if c a b | while c a |
-   for v a | break | continue | ret | def a.   `c` is "c" (an opaque boolean
+   Statements (field k): asg v t | cpy v s | use v | comp v u | if c a b | while c a |
+   for v a | break | continue | ret | def a.   `comp` is an assignment of a comprehension
+   `array(e for v in range(3))` to an untracked name: the target v is local to the
+   comprehension (Python 3 scoping; it may coincide with an enclosing local, whose binding
+   is unaffected and which is not a local of an enclosing nested function because of it);
+   if the element expression reads an outer variable u (u # v, else u = "-") that is a use.   `c` is "c" (an opaque boolean
    parameter) or a variable name (then evaluating the condition is a use).
    A nested `def` reads outer variables by their status at the definition site
    (Guppy captures by value there); its body is explored as if called at once.
@@ -132,6 +136,11 @@ Use == /\ AtStmt /\ Cur.k = "use"
        /\ stack' = Advance(stack)
        /\ UNCHANGED <<pid, env, dead>>
 
+\* comprehension: its target lives in the comprehension's own scope, nothing outside changes
+Comp == /\ AtStmt /\ Cur.k = "comp"
+        /\ stack' = Advance(stack)
+        /\ UNCHANGED <<pid, env, dead>>
+
 \* the condition value is ignored: both branches are paths
 IfThen == /\ AtStmt /\ Cur.k = "if"
           /\ stack' = Append(Advance(stack), Frame("arm", Cur.a, 1, NoEnv, ~dead, FALSE))
@@ -200,7 +209,7 @@ EndFun == /\ Depth > 0 /\ Top.t = "fn"
           /\ dead' = Top.dd
           /\ UNCHANGED pid
 
-Next == \/ Assign \/ Copy \/ Use \/ IfThen \/ IfElse \/ LoopStart \/ LoopEnter \/ LoopExit
+Next == \/ Assign \/ Copy \/ Use \/ Comp \/ IfThen \/ IfElse \/ LoopStart \/ LoopEnter \/ LoopExit
         \/ Break \/ Continue \/ Return \/ DeadEdge \/ EndSeq \/ DefFun \/ EndFun
 Spec == Init /\ [][Next]_vars
 
@@ -208,6 +217,7 @@ Spec == Init /\ [][Next]_vars
 ReadsVar == IF AtStmt THEN
                 CASE Cur.k = "use" -> <<Cur.v, Cur.l>>
                   [] Cur.k = "cpy" -> <<Cur.s, Cur.l>>
+                  [] Cur.k = "comp" /\ Cur.u \in Vars /\ Cur.u # Cur.v -> <<Cur.u, Cur.l>>
                   [] Cur.k = "if" /\ Cur.c \in Vars -> <<Cur.c, Cur.l>>
                   [] OTHER -> <<>>
             ELSE IF AtLoop /\ Loop.k = "while" /\ Loop.c \in Vars THEN <<Loop.c, Loop.l>>
@@ -219,6 +229,9 @@ Deadness == IF InFun /\ dead THEN "inner"
 \* always-true invariants that report facts
 EmitFacts == ReadsVar # <<>> =>
     PrintT(ToJson([id |-> Progs[pid].id, v |-> ReadsVar[1], l |-> ReadsVar[2], st |-> env[ReadsVar[1]], d |-> Deadness]))
+\* a comprehension whose target has the name of a tracked variable (status of that variable here)
+EmitShadow == (AtStmt /\ Cur.k = "comp" /\ Cur.v \in Vars) =>
+    PrintT(ToJson([id |-> Progs[pid].id, shadow |-> Cur.v, l |-> Cur.l, sh |-> env[Cur.v], d |-> Deadness]))
 EmitDone == stack = <<>> => PrintT(ToJson([done |-> Progs[pid].id]))
 
 \* ---- sanity of the model itself -------------------------------------------------
